@@ -13,10 +13,11 @@ CLAUSES = {
     "out-of-grid-dies": "a particle whose move would leave the valid region is dead (and inactive) afterwards and is not moved",
     "land-cancels": "a move onto a land cell is cancelled: the position is unchanged",
     "inactive-stays": "inactive particles are not moved horizontally",
+    "no-later-record": "through the real main loop and output: a particle appears in the records up to the step whose move would leave the valid region and in no later record (also when nobody is left alive), sparse and dense",
     "moves-as-prescribed": "any other particle ends at X + U_eff dt/dx, Y + V_eff dt/dy (advection + diffusion)",
 }
 BOUNDS = {
-    "quick": "global 6x6 mask fully symbolic (islands, channels), subgrids {full, [1,5,2,5]}, 2 particles (alive/active flags symbolic) anywhere in sea cells of the valid region, stage velocities and normal draws any real (any magnitude), dt = 600 s, D in {0, 0.75}, EF/RK2/RK4",
+    "quick": "(records: 6-step runs on the plug-in basin, 2 particles from symbolic positions/release step leaving through the open boundary, record every step, sparse and dense, EF) global 6x6 mask fully symbolic (islands, channels), subgrids {full, [1,5,2,5]}, 2 particles (alive/active flags symbolic) anywhere in sea cells of the valid region, stage velocities and normal draws any real (any magnitude), dt = 600 s, D in {0, 0.75}, EF/RK2/RK4",
     "thorough": "7x6 mask, 3 particles, subgrids {full, [2,6,1,5], [1,5,1,4]}",
 }
 ASSUMES = ["pre-state: every particle (alive or not) sits in a sea cell of the valid region (what the previous step established)",
@@ -39,7 +40,70 @@ def scenarios(tier):
                     for regime in ("out", "stay", "hop"):
                         for who in (1, 0):  # which array slot holds the regime particle (index cross-talk depends on the order)
                             out.append(dict(name=nm + f"-p2-{regime}{who}", fn="run", params=dict(adv=adv, sub=sub, diff=diff, L=L, M=M, npart=2, pinned=True, regime=regime, who=who), cost=40))
+    for layout in ("sparse", "dense"):
+        for adv in (("EF",) if q else ("EF", "RK4")):
+            out.append(dict(name=f"records-{layout}-{adv}", fn="records", params=dict(layout=layout, adv=adv, N=6), cost=20))
     return out
+
+
+def records(W, p):
+    """whole runs (real main loop, Model, State, Tracker, Output; plug-in basin 20x20, 3 cells per step eastwards):
+    two particles start at symbolic positions, leave through the open boundary one after the other; the files are read back"""
+    from harness.common import T0, base_config, ovar, run_main
+
+    N, layout = p["N"], p["layout"]
+    DT = 600
+    tmp = W.scratch()
+    xs = [W.real("xa", 6, 14), W.real("xb", 6, 14)]
+    r1 = W.idx(W.int("release_step_b", 0, 1))
+    W.table(tmp / "r.rls", ["release_time", "X", "Y", "Z"], [[W.dt(T0), xs[0], 10, 5], [W.dt(T0 + r1 * DT), xs[1], 8, 5]])
+    cfg = base_config(W, start=T0, stop=T0 + N * DT, dt=DT, release_file=tmp / "r.rls", u=W.frac(1, 2), advection=p["adv"],
+                      output=dict(filename=str(tmp / "out.nc"), output_period=DT, layout=layout, instance_variables=dict(pid=ovar("i4"), X=ovar("f8"))))
+    cfg["forcing"]["filename"] = str(tmp / "unused.nc")
+    run_main(W, cfg)
+    rel = [0, r1]
+    # record s holds particle n iff it is released and every position so far was inside: x + 3 (s - rel) < 19.5
+    exp = []
+    for s_ in range(N):
+        row = {}
+        for n in range(2):
+            if s_ >= rel[n] and W.truth(W.lt(xs[n] + 3 * (s_ - rel[n]), W.frac(39, 2))):
+                row[n] = xs[n] + 3 * (s_ - rel[n])
+        exp.append(row)
+    f = W.nc_read(tmp / "out.nc")
+    info = dict(layout=layout, adv=p["adv"], expected_members=[sorted(r) for r in exp])
+    conds = []
+    ok = True
+    if layout == "sparse":
+        pc = f["vars"]["particle_count"]
+        ok = len(pc) == N and not any(W.is_fill(c) for c in pc)
+        off = 0
+        got = []
+        for s_ in range(N if ok else 0):
+            c = int(pc[s_])
+            pid = [int(q_) for q_ in f["vars"]["pid"][off:off + c]]
+            got.append(pid)
+            if pid != sorted(exp[s_]):
+                ok = False
+            else:
+                conds += [W.eq(a, exp[s_][q_]) for a, q_ in zip(f["vars"]["X"][off:off + c], pid)]
+            off += c
+        info["got_members"] = got
+    else:
+        X = f["vars"]["X"]
+        ok = len(X) == N
+        for s_ in range(N if ok else 0):
+            for n in range(len(X[s_])):
+                if n in exp[s_]:
+                    ok = ok and not W.is_fill(X[s_][n])
+                    if ok:
+                        conds.append(W.eq(X[s_][n], exp[s_][n]))
+                else:
+                    ok = ok and W.is_fill(X[s_][n])
+            ok = ok and all(n < len(X[s_]) for n in exp[s_])
+    W.prove(ok, "no-later-record", info)
+    W.prove(W.all(conds), "no-later-record", dict(info, note="positions of the members"))
+    return tuple(tuple(sorted(r)) for r in exp)
 
 
 def _rint(W, x):
